@@ -87,8 +87,11 @@ def build_pool():
     sw1.cells[0].pop("id", None), sw2.cells[0].pop("id", None)
     sw1.cells[0]["id"] = "x1"
     sw2.cells[0]["id"] = "x2"
+    # the on-disk JSON form of a notebook (multi-line strings as lists of lines) is schema-valid input too
+    import nbformat
+    rawA = json.loads(nbformat.writes(copy.deepcopy(A)))
     pool = {
-        "d_plain": ("diff", A, B), "d_rev": ("diff", B, A), "d_lol": ("diff", lol1, lol2), "d_loo": ("diff", loo1, loo2),
+        "d_raw": ("diff", A, rawA), "d_plain": ("diff", A, B), "d_rev": ("diff", B, A), "d_lol": ("diff", lol1, lol2), "d_loo": ("diff", loo1, loo2),
         "d_obj": ("diff", obj1, obj2), "d_swap": ("diff", sw1, sw2), "d_swaprev": ("diff", sw2, sw1),
         "m_plain": ("merge", A, B, C), "m_lol": ("merge", lol1, lol2, with_layout(C, [[1, 2], [3], [9]], [[1], [2]], [[1, 2], [3]])),
         "m_loo": ("merge", loo1, loo2, with_layout(C, [{"a": 1}, {"a": 2}, {"a": 9}], [{"k": 1}, {"k": 2}], [{"a": 1}, {"a": 2}])),
@@ -240,7 +243,7 @@ def run():
     os.chdir(work)
     if chk.quick:
         maxlen = 3
-        calls = ["d_plain", "d_lol", "d_loo", "d_obj", "d_swap", "d_swaprev", "m_lol"]
+        calls = ["d_plain", "d_raw", "d_lol", "d_loo", "d_obj", "d_swap", "d_swaprev", "m_lol"]
         targets = [ALLCATS, ("sources",), ("sources", "outputs", "attachments", "metadata", "id")]
         maps = ["cellmeta-keys", "nbmeta-true"]
     else:
